@@ -27,11 +27,12 @@ func init() {
 			r.Cov["traces_validated_against_impl"] = m.Counts["decodes"]
 			r.Cov["evaluations"] = m.Counts["decodes"]
 			r.Cov["distinct_nontrivial"] = len(m.Outc)
-			r.Cov["rule"] = "every typed request of the field alphabets is encoded by the raw BER builder (and, for the subset go-ldap can express, by a real go-ldap client whose bytes are captured), decoded through the real (*conn).readRequest and compared field by field with the typed request; ordered pairs / triples of requests are decoded one after the other and every earlier message is compared again afterwards; distinct_nontrivial = distinct (operation, shape class) pairs where shape class = numbers of list elements / controls / outcome"
+			r.Cov["rule"] = "every typed request of the field alphabets is encoded by the raw BER builder (and, for the subset go-ldap can express, by a real go-ldap client whose bytes are captured), decoded through the real (*conn).readRequest and compared field by field with the typed request; ordered pairs / triples of requests are decoded one after the other and every earlier message is compared again afterwards; a SCHED part (coverage key sched_part) sends pipelined requests through the real connection loop under the scheduler: every handler must be handed the message of its own request; distinct_nontrivial = distinct (operation, shape class) pairs where shape class = numbers of list elements / controls / outcome"
 			r.Cov["samples"] = m.Samp
 			r.Cov["per_family"] = m.Counts
 			r.Cov["outcomes"] = m.Outc
 			r.Cov["exhaustive"] = !m.CapHit
+			attachSecondary(r)
 			r.Assume = []string{
 				"filters are encoded by go-ldap's CompileFilter and compared as DecompileFilter(CompileFilter(sent)) (the property says 'semantically')",
 				"Extended and Unbind messages expose no Controls field: controls on them are not compared (weaker reading)",
